@@ -39,16 +39,38 @@ def verify(seed, wt):
     rc, out = sh("go build ./... 2>&1 | tail -5", cwd=wt); res["builds"] = rc == 0 and "error" not in out
     rc, out = sh("go test -vet=off -count=1 ./... 2>&1 | grep -E '^(FAIL|---|panic)' | head", cwd=wt); res["suite_passes"] = out.strip() == ""
     res["demo_with_change_passes"], o1 = run_demo(wt, meta, seed)
-    sh("git stash -q", cwd=wt)
+    # (worktrees share one stash list, so no `git stash` here)
+    rc, cur = sh("git diff", cwd=wt)
+    want = open(os.path.join(seed, "patch.diff")).read()
+    res["worktree_diff_is_patch"] = cur.strip() == want.strip()
+    sh("git checkout -- .", cwd=wt)
     res["demo_without_change_passes"], o2 = run_demo(wt, meta, seed)
-    sh("git stash pop -q", cwd=wt)
-    res["confirmed"] = res["builds"] and res["suite_passes"] and (not res["demo_with_change_passes"]) and res["demo_without_change_passes"]
+    rc, out = sh("git apply %s" % os.path.join(seed, "patch.diff"), cwd=wt)
+    res["patch_applies_to_clean_tree"] = rc == 0
+    res["confirmed"] = res["worktree_diff_is_patch"] and res["patch_applies_to_clean_tree"] and res["builds"] and res["suite_passes"] and (not res["demo_with_change_passes"]) and res["demo_without_change_passes"]
     print(json.dumps(res, indent=1))
     meta["verified_by_me"] = dict(res, when=time.strftime("%Y-%m-%d %H:%M"), ran="go build ./...; go test -vet=off -count=1 ./...; demo with the change; demo with the change stashed")
     json.dump(meta, open(os.path.join(seed, "meta.json"), "w"), indent=1)
     if not res["confirmed"]:
         print("--- demo with change:\n", o1, "\n--- demo without:\n", o2)
     return res
+
+
+def reverify(ids):
+    """fresh scratch worktree; per seed: apply patch.diff, verify, clean"""
+    wt = "/tmp/wt-reverify-%d" % os.getpid()
+    rc, out = sh("git -C /repo worktree add --detach %s HEAD" % wt)
+    try:
+        for sid in ids:
+            d = os.path.join(ROOT, "seeded", sid)
+            rc, out = sh("git apply %s" % os.path.join(d, "patch.diff"), cwd=wt)
+            if rc != 0:
+                print(sid, "patch does not apply", out); continue
+            print("==", sid)
+            verify(d, wt)
+            sh("git checkout -- . && git clean -fdq", cwd=wt)
+    finally:
+        sh("git -C /repo worktree remove --force %s" % wt)
 
 
 def run(sid, props):
@@ -76,6 +98,8 @@ def run(sid, props):
                 print("    ", l[:300])
     finally:
         sh("git -C /repo checkout -- .")
+        # the source-derived Lean files were regenerated from the changed tree: put them back
+        sh("./.work/tr random /repo lean/Chihaya/Gen/Random.lean && ./.work/tr validate /repo lean/Chihaya/Gen/Validate.lean", cwd=ROOT)
     meta.setdefault("runs", []).append(dict(at=time.strftime("%Y-%m-%dT%H:%M:%SZ", time.gmtime()), results=results))
     meta["detected_by"] = sorted({p for r in meta["runs"] for p, v in r["results"].items() if v["detected"]})
     json.dump(meta, open(os.path.join(d, "meta.json"), "w"), indent=1)
@@ -97,7 +121,7 @@ def readme():
                 "the independent demonstration written by the sub-agent that produced it, and `meta.json` (what it needs to manifest, what was run, which checks reported it). "
                 "None of them is ever committed to /repo; `tools/seedtest.py run <id>` applies, checks and reverts.\n\n"
                 "| seed | property | change | needs | reported by | last run |\n|---|---|---|---|---|---|\n" + "\n".join(rows) + "\n")
-    print("\n".join(rows))
+    print(len(rows), "rows")
 
 
 if __name__ == "__main__":
@@ -105,5 +129,7 @@ if __name__ == "__main__":
         verify(sys.argv[2], sys.argv[3])
     elif sys.argv[1] == "run":
         sys.exit(run(sys.argv[2], sys.argv[3:]))
+    elif sys.argv[1] == "reverify":
+        reverify(sys.argv[2:] or sorted(x for x in os.listdir(os.path.join(ROOT, "seeded")) if os.path.isdir(os.path.join(ROOT, "seeded", x))))
     elif sys.argv[1] == "readme":
         readme()
